@@ -180,9 +180,23 @@ def basis_prefix_discipline(ctx, rule='basis-read-within-current-dimension'):
         for comp in ctx.F.insts(base + '::compute'):
             fac_full = paths.positions_of(comp, lambda n: n['k'] == 'CXXMemberCallExpr' and n.get('callee') == 'factorize_from')
             rs = paths.positions_of(comp, lambda n: n['k'] == 'CXXMemberCallExpr' and n.get('callee') == 'restart')
-            ok = bool(fac_full) and all(paths.dominated_by(comp, r, lambda n: n['k'] == 'CXXMemberCallExpr' and n.get('callee') == 'factorize_from') for r in rs)
+            # `if (k < m_ncv) factorize_from(k, m_ncv, ..)` with k = the current dimension (or max(1, dimension)) completes the
+            # factorization on both edges: the guard itself then counts as the completing element
+            guards = set()
+            for c in comp.walk():
+                if c['k'] == 'CXXMemberCallExpr' and c.get('callee') == 'factorize_from':
+                    args = comp.call_args(c)
+                    k = sym(comp, args[0])
+                    to = sym(comp, args[1], inline=False)
+                    for cond, truth in paths.enclosing_assumptions(comp, c):
+                        cs = sym(comp, cond)
+                        if truth and cs[0] == '<' and cs[1] == k and cs[2] == to == ('F', 'm_ncv') \
+                                and show(k).replace(' ', '') in ('subspace_dim(m_fac)', 'max(1,subspace_dim(m_fac))', 'max(subspace_dim(m_fac),1)'):
+                            guards.add(cond['id'])
+            done = lambda n: (n['k'] == 'CXXMemberCallExpr' and n.get('callee') == 'factorize_from') or n['id'] in guards
+            ok = bool(fac_full) and all(paths.dominated_by(comp, r, done) for r in rs)
             ctx.check(ok, rule, base.replace('Spectra::', '') + '::compute', comp.qname,
-                      'restart() (the only caller of compress_V) is dominated by factorize_from' if ok else
+                      'restart() (the only caller of compress_V) is dominated by factorize_from%s' % (' or by its guard `dimension < ncv`' if guards else '') if ok else
                       'restart() can run before the factorization was completed')
     for fn in ctx.F.concrete():
         for c in fn.walk():
